@@ -430,6 +430,9 @@ def _activate_full_plugin_worlds_for_body() -> Iterator[None]:
     """
     import_all_plugins()
     with ExitStack() as stack:
+        # Traces JAX memoises while the substitutes are installed (jax.checkpoint,
+        # jit, custom_jvp inside the body) must not outlive this scope.
+        stack.callback(jax.clear_caches)
         # Function plugins' monkey patches
         stack.enter_context(apply_monkey_patches())
         # Leaf plugins' binding_specs (e.g., nnx/jnp/lax rewrites)
